@@ -163,9 +163,20 @@ pub fn differential(ctx: &Ctx, rep: &mut Report) {
 /// logic of an implementation, which typical inputs never do. Returns the inputs ordered by
 /// decreasing number of chunks the reference consumes for 512 coefficients.
 pub fn extreme_inputs(seed: u64, candidates: usize, keep: usize) -> Vec<(usize, Vec<u8>)> {
+    extreme_inputs_ex(seed, candidates, keep).0
+}
+
+/// As extreme_inputs, plus a second list: inputs in which a chunk equal to the acceptance
+/// threshold (61445 = 5q, the first rejected value, or 61444) is among the LAST chunks the
+/// reference consumes for 512 coefficients, at a position beyond n + n/16 (so that many
+/// rejections came before it): the threshold test of whatever code handles the tail of a
+/// bulk-squeezed stream is the only thing between such a chunk and a wrong coefficient.
+/// Sorted by the position of that chunk, latest first.
+pub fn extreme_inputs_ex(seed: u64, candidates: usize, keep: usize) -> (Vec<(usize, Vec<u8>)>, Vec<(usize, Vec<u8>)>) {
     use crate::refs::keccak::Shake256;
     use std::sync::Mutex;
     let best: Mutex<Vec<(usize, Vec<u8>)>> = Mutex::new(vec![]);
+    let tails: Mutex<Vec<(usize, Vec<u8>)>> = Mutex::new(vec![]);
     par_for(64, ncpu(), |w, _| {
         let mut local: Vec<(usize, Vec<u8>)> = vec![];
         let mut buf = [0u8; 2 * 612];
@@ -180,8 +191,17 @@ pub fn extreme_inputs(seed: u64, candidates: usize, keep: usize) -> Vec<(usize, 
             let mut x = Shake256::new(&s);
             x.read(&mut buf);
             let (mut rej576, mut run, mut maxrun) = (0usize, 0usize, 0usize);
+            let (mut accepted, mut late_boundary) = (0usize, 0usize);
             for k in 0..612 {
                 let t = ((buf[2 * k] as u32) << 8) | buf[2 * k + 1] as u32;
+                if accepted < 512 {
+                    if (t == 61445 || t == 61444) && k >= 512 + 32 {
+                        late_boundary = k;
+                    }
+                    if t < 61445 {
+                        accepted += 1;
+                    }
+                }
                 if t >= 61445 {
                     run += 1;
                     maxrun = maxrun.max(run);
@@ -192,6 +212,9 @@ pub fn extreme_inputs(seed: u64, candidates: usize, keep: usize) -> Vec<(usize, 
                     run = 0;
                 }
             }
+            if late_boundary > 0 {
+                tails.lock().unwrap().push((late_boundary, s.clone()));
+            }
             if rej576 >= 58 || maxrun >= 6 {
                 // score: rejection-heavy prefixes and long runs both rank high
                 local.push((rej576 + 1000 * maxrun, s));
@@ -199,6 +222,9 @@ pub fn extreme_inputs(seed: u64, candidates: usize, keep: usize) -> Vec<(usize, 
         }
         best.lock().unwrap().extend(local);
     });
+    let mut tl = tails.into_inner().unwrap();
+    tl.sort_by(|a, b| b.0.cmp(&a.0).then(a.1.cmp(&b.1)));
+    tl.truncate(keep.max(200));
     let mut v = best.into_inner().unwrap();
     // half of the kept inputs by longest run, half by number of early rejections
     v.sort_by(|a, b| b.0.cmp(&a.0));
@@ -206,12 +232,22 @@ pub fn extreme_inputs(seed: u64, candidates: usize, keep: usize) -> Vec<(usize, 
     let mut rest: Vec<(usize, Vec<u8>)> = v.into_iter().skip(keep / 2).collect();
     rest.sort_by(|a, b| (b.0 % 1000).cmp(&(a.0 % 1000)));
     out.extend(rest.into_iter().take(keep - keep / 2));
-    out
+    (out, tl)
 }
 
 pub fn extremes(ctx: &Ctx, rep: &mut Report) {
-    let cands = ctx.sz(12_000_000, 600_000_000);
-    let xs = extreme_inputs(ctx.seed, cands, ctx.sz(4000, 80000));
+    let cands = ctx.sz(40_000_000, 600_000_000);
+    let (xs, tails) = extreme_inputs_ex(ctx.seed, cands, ctx.sz(4000, 80000));
+    for (pos, s) in &tails {
+        check(s, rep);
+        rep.count("inputs_with_a_threshold_chunk_late_in_the_stream", 1);
+        rep.stat_max("latest_threshold_chunk_position_512", *pos as f64);
+        if *pos >= 563 {
+            rep.count("threshold_chunk_beyond_n_plus_n_over_10", 1);
+        }
+        rep.nontrivial(s);
+    }
+    rep.require("inputs_with_a_threshold_chunk_late_in_the_stream", 100);
     rep.count("candidates_scanned_with_the_reference", cands as u64);
     let mut maxc = 0;
     for (score, s) in &xs {
